@@ -103,6 +103,10 @@ def render(ctx):
                                     f"{basis}/{q} at t={t}: sampled {gd[t]:.6f}, scheduled {drive[t]:.6f}"))
                     if not _close(gt, det):
                         t = int(np.argmax(np.abs(gt - det) > TOL))
+                        bad = np.abs(gt - det) > TOL
+                        pad_from = min([c.end for c in snap.channels.values() if c.in_eom() and basis_of(c.ch_id) == basis] + [T])
+                        if not bad[:pad_from].any():
+                            sit += ":only-in-open-eom-padding"
                         out.append((f"C06:atom-detuning:{sit}:all_local={all_local}",
                                     f"{basis}/{q} at t={t}: sampled {gt[t]:.6f}, scheduled {det[t]:.6f}"))
     return out
